@@ -36,7 +36,7 @@ EXIT_HELD, EXIT_VIOLATION, EXIT_INCONCLUSIVE = 0, 1, 2
 # ----------------------------------------------------------------------------------
 # bootstrap
 
-def bootstrap():
+def bootstrap(require_fork=True):
     """Import emd from the working tree of REPO (never from a stale install) and quieten it."""
     import warnings
     warnings.simplefilter('ignore')
@@ -50,7 +50,7 @@ def bootstrap():
     if here != want:
         raise RuntimeError('emd imported from %s, expected %s' % (here, want))
     import multiprocessing as mp
-    if mp.get_start_method() != 'fork':
+    if require_fork and mp.get_start_method() != 'fork':
         raise RuntimeError('start method is not fork; worker-side monitors would be blind')
     return emd
 
